@@ -268,7 +268,7 @@ func c07Verdict(log []vfEv, timeout int64, slack int64, fail func(string)) {
 			if amb || last < 0 {
 				continue
 			}
-			closedHere := s.closeT >= T && s.closeT <= T+slack && nilClose[fmt.Sprintf("%d@%d", s.owner, s.closeT)]
+			closedHere := s.closeT >= T && s.closeT <= T+slack && s.closeT < lostT && nilClose[fmt.Sprintf("%d@%d", s.owner, s.closeT)]
 			if T-last > timeout && !(s.closeT >= 0 && s.closeT <= T+slack) {
 				fail(fmt.Sprintf("socket %d (session %d) idle since %d ms was not closed by the sweep at %d ms (timeout %d)", k, s.owner, last, T, timeout))
 			}
